@@ -43,7 +43,7 @@ def export(spec, flavor, translations, ctx=None):
     # the first collection may live on a sequence chunk that contains all its members (e.g. the result of a range query): the
     # record then holds the chunk's sequence and chunk-relative coordinates
     ch_ = spec.get("chunk")
-    coll = mkcollection(spec["obj"], chunk_parent(spec["genome"], ch_[0], ch_[1]) if ch_ else chrom_parent(spec["genome"]))
+    coll = mkcollection(spec["obj"], chunk_parent(spec["genome"], ch_[0], ch_[1], strand=spec.get("chunk_strand", "+")) if ch_ else chrom_parent(spec["genome"]))
     colls = [coll] + [mkcollection(m_["obj"], chrom_parent(m_["genome"], name=m_.get("name", "chr%d" % (k_ + 2))), sequence_name=m_.get("name", "chr%d" % (k_ + 2))) for k_, m_ in enumerate(spec.get("more") or [])]
     buf = io.StringIO()
     with warnings.catch_warnings():
@@ -128,7 +128,56 @@ def first_frame(t):
     return t["frames"][0] if t["strand"] == "+" else t["frames"][-1]
 
 
+def mirror_obj(o, cs, ce):
+    """the same annotation as it reads on the reverse complement of the window [cs, ce): block [s, e) -> [ce - e, ce - s), strands
+    flipped, per-block lists (frames) reversed with the blocks"""
+    def mb(bl):
+        return sorted([ce - b[1], ce - b[0]] for b in bl)
+    fl = {"+": "-", "-": "+", ".": "."}
+    m = json.loads(json.dumps(o))
+    for gn in m.get("genes", []):
+        for t in gn["transcripts"]:
+            t["exons"] = mb(t["exons"])
+            t["strand"] = fl[t["strand"]]
+            if "cds" in t:
+                t["cds"] = mb(t["cds"])
+                t["frames"] = list(reversed(t["frames"]))
+    for c in m.get("feature_collections", []):
+        for f in c["features"]:
+            f["blocks"] = mb(f["blocks"])
+            f["strand"] = fl[f["strand"]]
+    return m
+
+
+def check_minus_chunk(spec, ctx):
+    """a collection on a chunk that is the REVERSE COMPLEMENT of its window: the record holds the chunk's sequence and chunk
+    coordinates, so it is the record of the mirrored annotation on that sequence (which the clauses of check_genbank decide)"""
+    cs, ce = spec["chunk"]
+    g = spec["genome"]
+    ctx.nt("collection_on_minus_chunk")
+    mirrored = {"obj": mirror_obj(spec["obj"], cs, ce), "genome": rm.revcomp(g[cs:ce]), "container": "list"}
+    for flavor in ("PROKARYOTIC", "EUKARYOTIC"):
+        for translations in (False, True):
+            try:
+                _, text_c = export(dict(spec, more=None), flavor, translations)
+                _, text_m = export(mirrored, flavor, translations)
+            except Exception as e:
+                ctx.fail("minus_chunk_export_raises[%s]" % flavor, repr(e)[:160])
+                continue
+            rc = list(SeqIO.parse(io.StringIO(text_c), "genbank"))
+            rmr = list(SeqIO.parse(io.StringIO(text_m), "genbank"))
+            if not ctx.eq("minus_chunk:one_record", (len(rc), len(rmr)), (1, 1)):
+                continue
+            ctx.eq("minus_chunk:sequence_is_the_chunk_sequence", str(rc[0].seq).upper(), rm.revcomp(g[cs:ce]).upper())
+
+            def table(rec):
+                return sorted((f.type, blocks_of(f), strand_of(f), sorted((k, tuple(v)) for k, v in f.qualifiers.items())) for f in rec.features)
+            ctx.eq("minus_chunk:features_are_the_mirrored_annotation[%s,tr=%d]" % (flavor, translations), table(rc[0]), table(rmr[0]))
+
+
 def check_genbank(spec, ctx):
+    if spec.get("chunk") and spec.get("chunk_strand") == "-":
+        return check_minus_chunk(spec, ctx)
     parts = [(spec["obj"], spec["genome"])] + [(m_["obj"], m_["genome"]) for m_ in (spec.get("more") or [])]
     if len(parts) > 1:
         ctx.nt("several_records")
@@ -278,6 +327,9 @@ def strat_genbank(draw, tier="quick"):
         members_lo = min([t["exons"][0][0] for gn in sp["obj"]["genes"] for t in gn["transcripts"]] + [f["blocks"][0][0] for c in sp["obj"]["feature_collections"] for f in c["features"]])
         members_hi = max([t["exons"][-1][1] for gn in sp["obj"]["genes"] for t in gn["transcripts"]] + [f["blocks"][-1][1] for c in sp["obj"]["feature_collections"] for f in c["features"]])
         sp["chunk"] = [draw(st.integers(0, members_lo)), draw(st.integers(members_hi, len(sp["genome"])))]
+        if draw(st.integers(0, 2)) == 0:
+            sp["chunk_strand"] = "-"
+            return sp
     r_ = draw(st.integers(0, 7))
     if r_ <= 1:
         sp["more"] = [draw(_one_record("s%d" % k, max_genes=2)) for k in range(draw(st.integers(1, 2)))]
@@ -359,7 +411,7 @@ PROP = Prop(
     pid="C12",
     legs=[
         Leg("genbank", check_genbank, strategy=strat_genbank, n_quick=150, n_thorough=1500, shards_quick=8,
-            must_hit=["minus&multi_exon", "offset!=0", "noncoding", "two_genes_touching", "translation_checked", "stale_translation_qualifier", "multi_isoform_gene", "several_records", "collection_on_chunk_with_offset", "abutting_exons"],
+            must_hit=["minus&multi_exon", "offset!=0", "noncoding", "two_genes_touching", "translation_checked", "stale_translation_qualifier", "multi_isoform_gene", "several_records", "collection_on_chunk_with_offset", "abutting_exons", "collection_on_minus_chunk"],
             rule="1..4 single-strand genes at increasing positions (adjacent genes possible), 1..2 isoforms, coding (offset 0/1/2, one reading frame) or non-coding (ncRNA/tRNA/rRNA/misc_RNA/tmRNA/lncRNA), unique symbols and locus tags, optional feature collection; x flavour {prokaryotic, eukaryotic} x update_translations x parser mode {sorted, locus-tag, hybrid}"),
     ],
     rule="Oracle: Bio.SeqIO (independent reader) for record types/blocks/strand/qualifiers, Bio codon table for /translation; source spec for the "
